@@ -256,6 +256,7 @@ public:
 		Op op = op0;
 		// where a resource limit may refuse a request, only a response can tell the harness which way it went
 		if (op.idm == ID_NONE && m.cfg.elem_order < 13 && (op.kind == ADD || op.kind == SET || op.kind == CALL)) op.idm = ID_NUM;
+		if (op.idm == ID_NONE && op.kind == PASSWD) op.idm = ID_NUM; // a failing file system may refuse the change
 		if (op.idm != ID_NONE) r.set("id", make_id(op));
 		r.set("method", Value::str(method));
 		r.set("params", params);
@@ -345,10 +346,17 @@ public:
 			return;
 		}
 		if (op.kind == FAULT) {
-			static const char *calls[] = {"accept", "writev", "read", "fcntl", "setsockopt", "getsockname", "epoll_ctl", "timerfd_create", "timerfd_settime"};
-			static const int errs[] = {ECONNABORTED, EMFILE, EINTR, ENOMEM, EPIPE, ECONNRESET, EIO, EBADF, ENFILE, EPROTO};
-			k.add_fault(calls[((op.a % 9) + 9) % 9], ((op.b % 8) + 8) % 8, errs[((op.c % 10) + 10) % 10]);
-			vd.labels.insert(std::string("fault:") + calls[((op.a % 9) + 9) % 9]);
+			static const char *calls[] = {"accept", "writev", "read", "fcntl", "setsockopt", "getsockname", "epoll_ctl", "timerfd_create", "timerfd_settime",
+			                              "ftruncate", "write", "open", "rename", "fsync"};
+			static const int errs[] = {ECONNABORTED, EMFILE, EINTR, ENOMEM, EPIPE, ECONNRESET, EIO, EBADF, ENFILE, EPROTO, ENOSPC, EDQUOT};
+			int ca = ((op.a % 15) + 15) % 15;
+			if (ca == 14) { // short write: the nth write() on a file takes only d bytes
+				k.add_fault("write", ((op.b % 4) + 4) % 4, -1, op.d < 0 ? 0 : op.d);
+				vd.labels.insert("fault:short-write");
+				return;
+			}
+			k.add_fault(calls[ca], ((op.b % 8) + 8) % 8, errs[((op.c % 12) + 12) % 12]);
+			vd.labels.insert(std::string("fault:") + calls[ca]);
 			return;
 		}
 		int ci = batch_sink ? batch_conn : live_conn(op.conn);
@@ -469,8 +477,10 @@ public:
 			Value p = Value::obj();
 			std::string user = sc.users.empty() ? "nobody" : pick(sc.users, op.a);
 			std::string pw = sc.passwords.empty() ? "nopw" : pick(sc.passwords, op.a);
-			if (op.b % 3 == 1) pw = "X" + pw; // differs in the first byte: DES crypt() only looks at 8 bytes
-			if (op.b % 3 == 2) user += "-unknown";
+			{ auto it = m.users.find(user); if (it != m.users.end() && op.b % 4 != 3) pw = it->second.password; } // the password in force (3: the one from the original file)
+			if (op.b % 4 == 1) pw = "X" + pw; // differs in the first byte: DES crypt() only looks at 8 bytes
+			if (op.b % 4 == 2) user += "-unknown";
+			if (!op.s.empty()) pw = op.s;
 			p.set("user", Value::str(user)); p.set("password", Value::str(pw));
 			send_value(ci, request(op, "authenticate", p), evs); return;
 		}
